@@ -1,7 +1,7 @@
 (* Entry points extracted for the correspondence check of C09 (unique c09_ prefix).
    Every entry takes the curve (p a b n G) and the hash functions explicitly. *)
 From Coq Require Import ZArith.
-Require Import Bits.Lib.Result Bits.Lib.Bytes Bits.Model.Ecmath Bits.Model.Sec1 Bits.Model.Bip32.
+Require Import Bits.Lib.Result Bits.Lib.Bytes Bits.Model.Ecmath Bits.Model.Sec1 Bits.Model.Bip32 Bits.Model.Hd.
 
 Definition c09_ckdpriv (p a b n : Z) (G : point) (hm : bytes -> bytes -> bytes) := CKDpriv p a n G hm.
 Definition c09_ckdpub (p a b n : Z) (G : point) (hm : bytes -> bytes -> bytes) := CKDpub p a n G hm.
@@ -48,3 +48,12 @@ Definition c09_master_chain (p a b n : Z) (G : point) (hm : bytes -> bytes -> by
   bind (root_serialized_extended_key sha (KPriv (fst kc)) (snd kc) testnet) (fun s =>
   bind (derive_from_path p a b n G hm sha rip path s) (fun y =>
   bind (get_xpub p a b n G sha y) (fun z => Ok (s, y, z))))).
+
+(* ---- wallet/hd.py: derive_child and class HD (Model/Hd.v, theorems in Props/C09Ext.v) ---- *)
+Definition c09_derive_child := derive_child.
+Definition c09_derive_child_body (p a b n : Z) (G : point) := derive_child_body p a b n G.
+Definition c09_hd_init (p a b n : Z) (G : point) := hd_init p a G.
+Definition c09_hd_from_mnemonic_then_new (p a b n : Z) (G : point) := from_mnemonic_then_new p a G.
+Definition c09_hd_get_root_keys (p a b n : Z) (G : point) := get_root_keys p a G.
+Definition c09_hd_from_xkey := from_xkey.
+Definition c09_hd_get_xkeys_from_path := get_xkeys_from_path.
